@@ -53,7 +53,8 @@ namespace Pistache
 
         typename Base::int_type snext() const
         {
-            if (this->gptr() == this->egptr())
+            // The character after the current one must itself be available
+            if (this->egptr() - this->gptr() < 2)
             {
                 return traits_type::eof();
             }
